@@ -73,8 +73,10 @@ def run_config(args):
                     cx.solver.set('timeout', int(_bt))
         del facade.STUB_LOG[:]
         with facade.Installed(**getattr(H, 'FACADE_KW', {})):
+            known_pats = [kf['pattern'] for kf in load_known(pid)]
+            is_new = lambda ob: not any(fnmatch.fnmatch(finding_key(cfg, ob), pat) for pat in known_pats)    # listed findings do not end the exploration early
             results, complete = core.explore(fn, max_paths=cfg.get('max_paths', getattr(H, 'MAX_PATHS', 400)),
-                                             time_budget=cfg.get('time_budget', 240 if tier == 'quick' else 1800), ctx_hook=hook)
+                                             time_budget=cfg.get('time_budget', 240 if tier == 'quick' else 1800), ctx_hook=hook, counts_as_new=is_new)
         out['complete'] = complete
         out['stubs'] = list(facade.STUB_LOG)
         validate_budget = cfg.get('validate', 1)
